@@ -238,7 +238,7 @@ func genCopyWorld(r *rand.Rand, c *CliCase, l Layout, vmode int) {
 	dir := pick(r, "", "sub", "a/b")
 	for i := 0; i < nfiles; i++ {
 		rel := filepath.Join(dir, fmt.Sprintf("f%d.wsp", i))
-		src := WFile{Base: "src", Rel: rel, Layout: l, Fills: genFills(r, l, vmode, 0.6)}
+		src := WFile{Base: "src", Rel: rel, Layout: l, Fills: genFills(r, l, vmode, 0.6), Link: chance(r, 0.1)}
 		dst := WFile{Base: "dst", Rel: rel, Layout: l}
 		switch r.IntN(6) {
 		case 0:
@@ -299,7 +299,7 @@ func genDiffWorld(r *rand.Rand, c *CliCase, l Layout, vmode int) {
 	}
 	for i := 0; i < nfiles; i++ {
 		rel := fmt.Sprintf("d/f%d.wsp", i)
-		src := WFile{Base: "src", Rel: rel, Layout: l, Fills: genFills(r, l, vmode, 0.6)}
+		src := WFile{Base: "src", Rel: rel, Layout: l, Fills: genFills(r, l, vmode, 0.6), Link: chance(r, 0.1)}
 		dst := WFile{Base: "dst", Rel: rel, Layout: l}
 		switch r.IntN(6) {
 		case 0, 1: // identical copy
@@ -383,7 +383,7 @@ func genSumWorld(r *rand.Rand, c *CliCase, l Layout, withDest bool) {
 		}
 		for f := 0; f < nf; f++ {
 			// dyadic values: every summation order gives the same float64
-			c.Files = append(c.Files, WFile{Base: "src", Rel: fmt.Sprintf("%s/s%d.wsp", item, f), Layout: l, Fills: genFills(r, l, 1, 0.7)})
+			c.Files = append(c.Files, WFile{Base: "src", Rel: fmt.Sprintf("%s/s%d.wsp", item, f), Layout: l, Fills: genFills(r, l, 1, 0.7), Link: chance(r, 0.05)})
 		}
 		if withDest {
 			dst := WFile{Base: "dst", Rel: fmt.Sprintf("%s/sum.wsp", item), Layout: l}
